@@ -25,6 +25,7 @@ RULE = ('blocks = core {cyclic contraction, acyclic} x alias target {simultaneou
         'k>=1 bit-for-bit for acyclic cores and within a gap (<=1e-6 rel. holds, >=1e-4 rel. violated) for cyclic cores solved at '
         'tolerance 1e-10; non-trivial = blocks in which the reduced run actually moved or substituted variables')
 ASSUMPTIONS = [
+    'label family: a registered user function with a text label (10 labels x 2 quote styles, with punctuation, blanks, apostrophes and the alias name inside the string) must see the same label with and without reduction',
     'alias cycles (y=z, z=y) are excluded: documented user error (the reduced run raises "Equality loop")',
     'acyclic blocks: Jacobi reproduces the same float operations once names are substituted, chains are shorter than the 10-sweep damping threshold',
 ]
@@ -143,6 +144,65 @@ def compare(block, exact_required, case, steady=False, twice=False):
     return ('indeterminate' if indet else 'same'), None, moved
 
 
+# user function taking a text label: the reduction rewrites equations that contain string literals
+LABELS = ['band 1 - low, basic', 'a-b', 'x + al', "it's, so", 'two  blanks', ' lead', 'al', 'say "hi", now', 'k - 1 ; t', 'Exo genous , x']
+# ('#', '=' and a lag spelling inside a string literal are outside the line format of the parser, which cuts at '#' and '=' first)
+
+
+def _pick(label, v):
+    h = sum((i + 1) * ord(ch) for i, ch in enumerate(label)) % 97
+    return v * (1. + h / 100.)
+
+
+def label_cases():
+    out = []
+    for lab in LABELS:
+        for q in ("'", '"'):
+            if q in lab:
+                continue
+            for alias_user in ('al', 'x'):      # with / without an alias to substitute in the same system
+                out.append({'kind': 'labels', 'label': lab, 'quote': q, 'alias_user': alias_user})
+    return out
+
+
+def check_label(case):
+    lit = case['quote'] + case['label'] + case['quote']
+    text = ('x = .5*y + pick(%s, g)\ny = .25*x + %s\nal = x\nu = al + pick(%s, 1.)\nMaxTime = 3\nErr_Tolerance = 1e-10\nexogenous\ng = [1., 2., 4., 8.]'
+            % (lit, case['alias_user'], lit))
+    case = dict(case, text=text)
+    runs = []
+    for red in (True, False):
+        s = EquationSolver(text, run_equation_reduction=red)
+        s.AddFunction('pick', _pick)
+        s.MaxIterations = 2000
+        try:
+            s.SolveEquation()
+        except Exception as e:
+            runs.append(e)
+        else:
+            runs.append(s)
+    a, b = runs
+    if isinstance(a, Exception) and isinstance(b, Exception):
+        return 'both-raise', None
+    if isinstance(a, Exception) or isinstance(b, Exception):
+        which = 'reduced' if isinstance(a, Exception) else 'unreduced'
+        err = a if isinstance(a, Exception) else b
+        return 'one-raises', core.violation('reduction-changes-outcome:%s-run-raises:string-literal' % which, '%s run raises %r' % (which, err), case)
+    want = _pick(case['label'], 1.)
+    for v in sorted(b.TimeSeries):
+        if v not in a.TimeSeries:
+            return 'varset', core.violation('reduction-changes-variable-set', '%s missing with reduction' % v, case)
+        for k, (x, y) in enumerate(zip(a.TimeSeries[v], b.TimeSeries[v])):
+            if x != y and (k == 0 or abs(x - y) / (1 + abs(y)) >= 1e-6):
+                return 'differs', core.violation('reduction-changes-value:string-literal', '%s[%d] = %r with reduction, %r without (label %r)' % (v, k, x, y, case['label']), case)
+    # absolute anchor: u - al is the function of the label applied to 1.
+    for k in range(1, 4):
+        if abs((a.TimeSeries['u'][k] - a.TimeSeries['al'][k]) - want) > 1e-9:
+            return 'label-changed', core.violation('string-literal-changed', 'pick(%r, 1.) evaluates to %r, expected %r' % (
+                case['label'], a.TimeSeries['u'][k] - a.TimeSeries['al'][k], want), case)
+    return 'same', None
+
+
 def classify(case, v, k):
     f = case['features']
     if f['icpos'] in ('a1', 'aL'):
@@ -158,12 +218,25 @@ def units(tier):
             for n in range(1, L + 1):
                 for order in ('forward', 'reverse'):
                     out.append({'core': corek, 'target': target, 'L': n, 'order': order, 'horizon': BOUNDS[tier]['horizon']})
+    out.append({'kind': 'labels'})
     return out
 
 
 def run_unit(unit, tier):
     res = core.new_result()
     dig = core.Digest()
+    if unit.get('kind') == 'labels':
+        for case in label_cases():
+            dig.add(sorted(case.items()))
+            outcome, v = check_label(case)
+            res['evaluations'] += 1
+            res['nontrivial'] += 1
+            core.bump(res['outcomes'], 'labels:' + outcome)
+            if v:
+                res['violations'].append(v)
+        res['samples'].append({'label family': label_cases()[0]})
+        res['digest'] = dig.hex()
+        return res
     seconds = (False,) if tier == 'quick' else (False, True)
     for user, tree, icpos, lagof, second in itertools.product(USERS, (False, True), ICPOS, LAGOF, seconds):
         blk = make_block(unit['core'], unit['target'], unit['L'], unit['order'], user, tree, icpos, lagof, unit['horizon'], second)
@@ -215,6 +288,9 @@ def run_unit(unit, tier):
 
 
 def replay(case):
+    if case.get('kind') == 'labels':
+        o, v = check_label(dict((k, case[k]) for k in ('kind', 'label', 'quote', 'alias_user')))
+        return [v] if v else []
     f = case['features']
     blk = make_block(f['core'], f['target'], f['L'], f['order'], f['user'], f['tree'], f['icpos'], f['lagof'], f['horizon'], f.get('second', False))
     o, v, m = compare(blk, f['core'] == 'acyclic' and not f.get('steady'), case, steady=bool(f.get('steady')), twice=bool(f.get('twice')))
